@@ -64,6 +64,52 @@ theorem uncovered_option_counterexample :
     ∧ ((execFresh W t0 evs).map (·.perFile.flatten.map (·.id)) = [[], ["inconclusive".toList]]) := by
   refine ⟨by decide +kernel, by decide +kernel, by decide +kernel⟩
 
+/-! ## from the table to `hopt`: what is proved and what is not -/
+
+/-- **one block at a time.** If two settings render equally before and after a block of the toolinfo chain (e.g. they differ only
+    in the fields one option writes, and those are rendered by adjacent items), then equal toolinfo forces the block to render
+    equally – contrapositive: changing what a covered option writes changes toolinfo, hence (no collision) the key. -/
+theorem covered_block_determined (pre blk suf : List ToolItem) (sv sv' : SettingsView)
+    (hp : renderToolinfo pre sv = renderToolinfo pre sv') (hs : renderToolinfo suf sv = renderToolinfo suf sv')
+    (h : renderToolinfo (pre ++ (blk ++ suf)) sv = renderToolinfo (pre ++ (blk ++ suf)) sv')
+    (hsome : (renderToolinfo (pre ++ (blk ++ suf)) sv).isSome = true) :
+    renderToolinfo blk sv = renderToolinfo blk sv' :=
+  render_block_cancel pre blk suf sv sv' hp hs h hsome
+
+/-- settings for the witnesses below: everything off, `maxConfigsOption = mc`, `checkLevel = lvl`, user defines `ud`, the given addons -/
+def svWitness (ud : String) (mc : Int) (lvl : Nat) (addons : List (List (String × Str))) : SettingsView :=
+  { version := "2.21 dev".toList, product := [],
+    sevs := [("warning", false), ("style", false), ("performance", false), ("portability", false), ("information", false)],
+    bools := [("checkConfiguration", false), ("force", false), ("certainty:inconclusive", false),
+              ("checks:unusedFunction", false), ("checks:missingInclude", false)],
+    strs := [("userDefines", ud.toList), ("premiumArgs", []), ("standards.getC", "c11".toList), ("standards.getCPP", "c++20".toList),
+             ("platform.toString", "native".toList)],
+    ints := [("maxConfigsOption", mc)], enums := [("checkLevel", lvl)], addons := addons, dump := [], filePath := "a.c".toList,
+    lists := [("userUndefs", []), ("libraries", [])] }
+
+/-- the block lemma applied to the translated chain: `-DX` vs `-DY` (item 9 of the chain is `userDefines`) render equally before and
+    after that item, so their toolinfos differ -/
+example :
+    let items := Cppcheck.Gen.HashInput.toolinfoItems
+    let a := svWitness "X=1" 0 1 []
+    let b := svWitness "Y=1" 0 1 []
+    renderToolinfo (items.take 9) a = renderToolinfo (items.take 9) b
+    ∧ renderToolinfo (items.drop 10) a = renderToolinfo (items.drop 10) b
+    ∧ items = items.take 9 ++ ([.strField "userDefines"] ++ items.drop 10)
+    ∧ renderToolinfo items a ≠ renderToolinfo items b := by
+  refine ⟨by decide +kernel, by decide +kernel, by decide +kernel, by decide +kernel⟩
+
+/-- **the chain as a whole is not uniquely decodable**: `--max-configs=11` at check level 0 and `--max-configs=1` at check level 1 with
+    an addon named `0` render to the same toolinfo (no separator between `maxConfigsOption`, `checkLevel`, addon name/args and
+    `premiumArgs`).  So `hopt` does not follow from `options_covered_partial` for arbitrary settings; addon names and `premiumArgs` are
+    not options of the property's list and no command line over the listed options is known that collides. -/
+theorem toolinfo_rendering_ambiguous :
+    svWitness "" 11 0 [] ≠ svWitness "" 1 1 [[("name", ['0']), ("args", [])]]
+    ∧ renderToolinfo Cppcheck.Gen.HashInput.toolinfoItems (svWitness "" 11 0 [])
+        = renderToolinfo Cppcheck.Gen.HashInput.toolinfoItems (svWitness "" 1 1 [[("name", ['0']), ("args", [])]])
+    ∧ (renderToolinfo Cppcheck.Gen.HashInput.toolinfoItems (svWitness "" 11 0 [])).isSome = true := by
+  refine ⟨by decide +kernel, by decide +kernel, by decide +kernel⟩
+
 /-! ## which options reach the key (tables regenerated from the source on every run) -/
 
 /-- the fields CppCheck::calculateHash streams into toolinfo today -/
